@@ -186,7 +186,7 @@ struct TopoMachine : Machine {
     if (cfg.chance(1, 10)) flags |= HWLOC_TOPOLOGY_FLAG_DONT_CHANGE_BINDING;
     if (cfg.chance(1, 25)) flags |= 1UL << 20;   // illegal flag word: set_flags must refuse and leave the configuration alone
     char fb[32]; snprintf(fb, sizeof fb, "0x%lx", flags);
-    std::string cfgline = "filters=" + filters + " flags=" + fb + " lazy=" + std::to_string(cfg.chance(1, 3) ? 1 : 0) + " postcfg=" + std::to_string(cfg.chance(1, 4) ? 1 : 0) + " udmarkup=" + std::to_string(cfg.chance(1, 12) ? 1 : 0);
+    std::string cfgline = "filters=" + filters + " flags=" + fb + " lazy=" + std::to_string(cfg.chance(1, 3) ? 1 : 0) + " postcfg=" + std::to_string(cfg.chance(1, 4) ? 1 : 0) + " udmarkup=" + std::to_string(cfg.chance(1, 4) ? 1 : 0);
     p.seth("cfg", cfgline);
     // op alphabet with per-property weights; a random third of the kinds is disabled per run (swarm)
     struct W { const char *k; int w; };
